@@ -302,11 +302,14 @@ def check_array_arguments(ctx, cirq, cg):
     from cirq_google.serialization import arg_func_langs as afl
 
     rng = ctx.substream('array-args')
-    for it in range(30 if ctx.tier == 'quick' else 300):
+    systematic = [(sh, dt, lay) for sh in ((2, 3), (3, 2, 2), (4, 1, 3)) for dt in (np.float64, np.float32, np.int64, np.bool_) for lay in ('F', 'transposed', 'C', 'sliced')]
+    for it in range(len(systematic) + (30 if ctx.tier == 'quick' else 300)):
         shape = tuple(rng.randint(1, 4) for _ in range(rng.choice([1, 2, 2, 3])))
         dtype = rng.choice([np.float64, np.float64, np.float32, np.int64, np.int32, np.bool_])
-        base = np.array([rng.choice([0, 1, 2.5, -3, 7]) for _ in range(int(np.prod(shape)))]).reshape(shape).astype(dtype)
         layout = rng.choice(['C', 'F', 'transposed', 'sliced'])
+        if it < len(systematic):
+            shape, dtype, layout = systematic[it]
+        base = np.array([rng.choice([0, 1, 2.5, -3, 7]) for _ in range(int(np.prod(shape)))]).reshape(shape).astype(dtype)
         arr = {'C': lambda: np.ascontiguousarray(base), 'F': lambda: np.asfortranarray(base), 'transposed': lambda: np.ascontiguousarray(base.T).T,
                'sliced': lambda: np.concatenate([base, base], axis=0)[: shape[0]]}[layout]()
         ctx.count('check', 'array-args')
